@@ -324,3 +324,91 @@ def check_no_dead_code(report, repo, rule):
           'it implemented is gone' % (f.qualname, norm(dead[0])[:60]))
   report.ok(rule, 'openhtf', '%d analysed functions have no unreachable '
             'statements' % n)
+
+
+# ---------------------------------------------------------------------------
+# reaching definitions (name-independent rules resolve locals through these)
+
+def defs_at(node):
+  """Local names (re)bound by a CFG node -> {name: value expr or None}."""
+  out = {}
+  a = node.ast
+  if node.kind == 'stmt' and a is not None:
+    if isinstance(a, ast.Assign):
+      for t in a.targets:
+        if isinstance(t, ast.Name):
+          out[t.id] = a.value
+        else:
+          for x in core._flatten_target(t):  # pylint: disable=protected-access
+            if isinstance(x, ast.Name):
+              out[x.id] = None
+    elif isinstance(a, ast.AnnAssign) and a.value is not None and isinstance(
+        a.target, ast.Name):
+      out[a.target.id] = a.value
+    elif isinstance(a, ast.AugAssign) and isinstance(a.target, ast.Name):
+      out[a.target.id] = None
+    elif isinstance(a, ast.Delete):
+      for t in a.targets:
+        if isinstance(t, ast.Name):
+          out[t.id] = None
+    elif isinstance(a, (ast.Import, ast.ImportFrom)):
+      for al in a.names:
+        out[(al.asname or al.name).split('.')[0]] = None
+  elif node.kind == 'for' and a is not None:
+    for x in core._flatten_target(a.target):  # pylint: disable=protected-access
+      if isinstance(x, ast.Name):
+        out[x.id] = None
+  elif node.kind == 'with_enter' and a is not None:
+    items = a.items if isinstance(a, ast.With) else []
+    for i in items:
+      if i.optional_vars is not None:
+        for x in core._flatten_target(i.optional_vars):  # pylint: disable=protected-access
+          if isinstance(x, ast.Name):
+            out[x.id] = i.context_expr
+  elif node.kind == 'handler' and a is not None and getattr(a, 'name', None):
+    out[a.name] = None
+  for e in node.exprs:
+    if e is None:
+      continue
+    for x in walk_no_nested(e):
+      if isinstance(x, ast.NamedExpr) and isinstance(x.target, ast.Name):
+        out[x.target.id] = x.value
+  return out
+
+
+def reaching_defs(g, node, name):
+  """[(def node or g.entry, value expr or None)] of `name` that reach the
+  evaluation of `node` (g.entry stands for a parameter / no definition)."""
+  out = []
+  seen = set()
+  stack = [p for _, p in node.preds]
+  while stack:
+    n = stack.pop()
+    if n.id in seen:
+      continue
+    seen.add(n.id)
+    d = defs_at(n)
+    if name in d:
+      out.append((n, d[name]))
+      continue
+    if n is g.entry:
+      out.append((n, None))
+      continue
+    for _, p in n.preds:
+      stack.append(p)
+  return out
+
+
+def value_exprs(g, node, expr, depth=3):
+  """Expressions `expr` may evaluate to at `node`, following local names
+  through their reaching definitions (bounded).  A name with an unknown /
+  parameter definition is returned as itself."""
+  if not isinstance(expr, ast.Name) or depth == 0:
+    return [expr]
+  out = []
+  for dn, val in reaching_defs(g, node, expr.id):
+    if val is None or dn is g.entry:
+      out.append(expr)
+    else:
+      out.extend(value_exprs(g, dn, val, depth - 1))
+  return out or [expr]
